@@ -1,6 +1,6 @@
 #!/bin/sh
 # parse every specification module (run before committing)
-cd /verif/spec
+cd "$(dirname "$0")/../spec"
 rc=0
 for f in *.tla; do
   out=$(java -cp /opt/veriftools/tla/tla2tools.jar:/opt/veriftools/tla/CommunityModules-deps.jar tla2sany.SANY $f 2>&1)
